@@ -64,7 +64,7 @@ func (c *C18Case) NTKey() string {
 	return ""
 }
 
-var c18SharedOps = []string{"At", "Slice", "Iterate", "Add", "AddShared", "Lt", "Sum", "Max", "Argmax", "Inner", "MatVecMul", "MatMul", "Dot", "Clone", "Materialize", "Sprint", "T-safe", "Repeat", "Stack", "Apply", "PrivateUnsafe", "PrivateReturn"}
+var c18SharedOps = []string{"At", "Slice", "Iterate", "Add", "AddShared", "AddScalar", "ScalarSub", "LtScalar", "Lt", "Sum", "Max", "Argmax", "Inner", "MatVecMul", "MatMul", "Dot", "TensorMul", "Clone", "Materialize", "Sprint", "T-safe", "Repeat", "Stack", "Apply", "PrivateUnsafe", "PrivateReturn", "PrivateScalarOther", "PrivateTensorMul"}
 
 // runOp performs one operation and returns a digest of what it delivered.
 func c18RunOp(o C18Op, shared []*tensor.Dense, sharedM []Arr, priv **tensor.Dense) string {
@@ -109,6 +109,46 @@ func c18RunOp(o C18Op, shared []*tensor.Dense, sharedM []Arr, priv **tensor.Dens
 		return dig(tensor.Add(s, fresh(m.Shape, int64(o.Arg%7))))
 	case "AddShared":
 		return dig(tensor.Add(s, s))
+	case "AddScalar", "ScalarSub", "LtScalar":
+		var sc interface{} = int32(o.Arg%5 + 1)
+		if isF {
+			sc = float64(o.Arg%5 + 1)
+		}
+		switch o.Op {
+		case "AddScalar":
+			return dig(tensor.Add(s, sc))
+		case "ScalarSub":
+			return dig(tensor.Sub(sc, s))
+		}
+		return dig(tensor.Lt(s, sc))
+	case "TensorMul":
+		if !isF || len(m.Shape) < 2 {
+			return "-"
+		}
+		v := fresh([]int{m.Shape[len(m.Shape)-1], 2}, 1)
+		return dig(s.TensorMul(v, []int{len(m.Shape) - 1}, []int{0}))
+	case "PrivateScalarOther":
+		// scalar arithmetic on element types of other sizes (each has its own lazily created buffer pool)
+		switch o.Arg % 4 {
+		case 0:
+			p := tensor.New(tensor.WithShape(3), tensor.WithBacking([]int8{1, 2, 3}))
+			return dig(tensor.Add(p, int8(2)))
+		case 1:
+			p := tensor.New(tensor.WithShape(3), tensor.WithBacking([]int16{1, 2, 3}))
+			return dig(tensor.Mul(int16(2), p))
+		case 2:
+			p := tensor.New(tensor.WithShape(2), tensor.WithBacking([]complex128{1, 2i}))
+			return dig(tensor.Add(p, complex(1, 1)))
+		}
+		p := tensor.New(tensor.WithShape(2), tensor.WithBacking([]float32{1, 2}))
+		return dig(tensor.Sub(p, float32(1)))
+	case "PrivateTensorMul":
+		a := fresh([]int{2, 3, 2}, int64(o.Arg%3))
+		b := fresh([]int{2, 2}, 1)
+		if !isF {
+			return "-"
+		}
+		return dig(a.TensorMul(b, []int{2}, []int{0}))
 	case "Lt":
 		return dig(tensor.Lt(s, fresh(m.Shape, int64(o.Arg%7))))
 	case "Sum":
@@ -240,17 +280,24 @@ func (c *C18Case) Run() string {
 		metas[i] = metaOf(s)
 	}
 	raceLogGrowth() // discard anything reported before this case
-	// sequential oracle
-	want := make([][]string, len(c.Progs))
-	for g, prog := range c.Progs {
-		var priv *tensor.Dense
-		for _, o := range prog {
-			want[g] = append(want[g], c18RunOp(o, shared, sharedM, &priv))
+	// The concurrent runs come FIRST, on pools as cold as in a fresh process (resetLib ran at the
+	// top of the case): lazily created library state is then created under contention. The
+	// sequential oracle is computed afterwards; results are values, so the order does not matter.
+	var want [][]string
+	sequential := func() string {
+		want = make([][]string, len(c.Progs))
+		for g, prog := range c.Progs {
+			var priv *tensor.Dense
+			for _, o := range prog {
+				want[g] = append(want[g], c18RunOp(o, shared, sharedM, &priv))
+			}
 		}
+		if txt := raceLogGrowth(); txt != "" {
+			return "HARNESS: race reported during the sequential run: " + oneLine(txt)
+		}
+		return ""
 	}
-	if txt := raceLogGrowth(); txt != "" {
-		return "HARNESS: race reported during the sequential run: " + oneLine(txt)
-	}
+	var gots [][][]string
 	reps := c.Repeat
 	if reps < 1 {
 		reps = 1
@@ -279,14 +326,24 @@ func (c *C18Case) Run() string {
 		if txt := raceLogGrowth(); txt != "" {
 			return "the race detector reported a data race: " + summariseRace(txt) + " | " + desc
 		}
-		for g := range want {
-			for k := range want[g] {
-				if k >= len(got[g]) || got[g][k] != want[g][k] {
-					gv := "<missing>"
-					if k < len(got[g]) {
-						gv = got[g][k]
+		gots = append(gots, got)
+		if rep == reps-1 {
+			if m := sequential(); m != "" {
+				return m
+			}
+		} else {
+			continue
+		}
+		for _, got := range gots {
+			for g := range want {
+				for k := range want[g] {
+					if k >= len(got[g]) || got[g][k] != want[g][k] {
+						gv := "<missing>"
+						if k < len(got[g]) {
+							gv = got[g][k]
+						}
+						return fmt.Sprintf("goroutine %d op %d (%s) delivered %s when run concurrently but %s when run alone | %s", g, k, c.Progs[g][k].Op, gv, want[g][k], desc)
 					}
-					return fmt.Sprintf("goroutine %d op %d (%s) delivered %s when run concurrently but %s when run alone | %s", g, k, c.Progs[g][k].Op, gv, want[g][k], desc)
 				}
 			}
 		}
